@@ -5,10 +5,11 @@ VERIF = os.path.dirname(os.path.dirname(os.path.abspath(__file__)))
 sys.path[:0] = [VERIF, '/repo/src', os.path.join(VERIF, 'shims')]
 props = [json.loads(l) for l in open(os.path.join(VERIF, 'properties.jsonl'))]
 checks, na = [], []
+ready = set(open(os.path.join(VERIF, 'checks', 'READY')).read().split())
 for p in props:
     pid = p['id']
     hits = glob.glob(os.path.join(VERIF, 'checks', pid.lower() + '_*.py'))
-    if not hits:
+    if not hits or pid not in ready:
         na.append({'property_id': pid, 'reason': 'check not built yet (work in progress; the property is decidable by this technique, see DESIGN.md)'})
         continue
     m = importlib.import_module('checks.' + os.path.splitext(os.path.basename(hits[0]))[0])
